@@ -16,7 +16,7 @@ From RU Require Import Base.Prelude Base.Utf8 Base.Utf8Facts Base.U32_c13 Gen.Ta
   Proofs.Idna_WalkFun Proofs.Idna_WalkInv Proofs.Idna_WalkApi Proofs.Idna_WalkEnc Proofs.Idna_PunyRT
   Proofs.Idna_C10c_Puny Proofs.Idna_C10c_Start Proofs.Idna_C10c_Drun Proofs.Idna_C10c_Loop Proofs.Idna_C10c_Rerun
   Proofs.Idna_C10c_Idem Proofs.Idna_C10c_Example Proofs.Idna_Mark Proofs.Idna_C12 Proofs.Idna_C12b_Stmt3
-  Proofs.Idna_C12c_Virtual Proofs.Idna_C12c_UofA Proofs.Idna_C12c_Stmt4 Proofs.Idna_C12d_Round Proofs.Idna_C12d_Stmt5.
+  Proofs.Idna_C12c_Virtual Proofs.Idna_C12c_UofA Proofs.Idna_C12c_Stmt4 Proofs.Idna_C12d_Round Proofs.Idna_C12d_Stmt5 Proofs.C09_InstIdna.
 
 (* ---------------------------------------------------------------- sub-lists of a deny list *)
 Definition Sub (d' d : N) : Prop := forall c, deny_member d c = false -> deny_member d' c = false.
@@ -230,4 +230,97 @@ Theorem p1_empty_url A cfg d b a : to_ascii A cfg d DENY_URL HAllow DIgnore = Ok
 Proof.
   intros H. unfold to_unicode.
   exact (to_ui_sub A cfg HAllow DENY_EMPTY DENY_URL sub_empty_url (proj1 deny_upper_builtin) d b a always_unicode H).
+Qed.
+
+(* ---------------------------------------------------------------- (P2) the characters of the Unicode form *)
+Lemma utf8_encode1_low c b : In b (utf8_encode1 c) -> b < 128 -> b = c.
+Proof.
+  unfold utf8_encode1. destruct (c <? 128); [intros [<-|[]] _; reflexivity|].
+  destruct (c <? 2048); [cbn [In]; intros H; lia|]. destruct (c <? 65536); cbn [In]; intros H; lia.
+Qed.
+Lemma utf8_encode_low t b : In b (utf8_encode t) -> b < 128 -> In b t.
+Proof.
+  unfold utf8_encode. intros H Hb. apply in_flat_map in H. destruct H as (c & Hc & H).
+  rewrite (utf8_encode1_low c b H Hb). exact Hc.
+Qed.
+Lemma okc_join deny ls : okc deny DOT -> Forall (Forall (okc deny)) ls -> Forall (okc deny) (join_dots ls).
+Proof. intros Hd H. exact (join_dots_Forall (okc deny) ls Hd H). Qed.
+
+Section Form.
+Variable A : adapter.
+Variable cfg : bool.
+Variable deny : N.
+Variable hy : hyphens.
+Hypothesis HV : valid_deny deny.
+Hypothesis HOK : AdapterOK A.
+Hypothesis HUSV : AdapterUSV A.
+Hypothesis HNT : NvNoTrunc A.
+Hypothesis HNI : NvIdem A.
+Hypothesis HNM : AsciiNoMark A.
+Hypothesis HMP : MapPrefix A.
+
+Let HU : DenyUpper deny := proj1 (valid_deny_facts deny HV).
+Let HL : LdhFree deny := proj2 (valid_deny_facts deny HV).
+
+Lemma pair_out_okc dbl e o : PairOK A cfg deny hy dbl e -> out_label cfg uT dbl e = inl o -> Forall (okc deny) o.
+Proof.
+  intros HP Ho. destruct HP as [m Han Hn Hacc|m dec dbl Ha Hn Hp Hc Hd Hapd Hchk Hna|dbl Hnv Hg Hchk Hu Hpre];
+    cbn [out_label uT] in Ho; inversion Ho; subst o; clear Ho.
+  - destruct Han as [Ha _]. unfold lab_acc in Hacc. apply andb_true_iff in Hacc. destruct Hacc as [Hf _].
+    apply negb_true_iff in Hf. apply Forall_forall. intros x Hx. apply in_map_iff in Hx. destruct Hx as (b0 & <- & Hb0).
+    rewrite Forall_forall in Ha. apply clean_okc. apply (apply_upper_lowclean deny b0 HU HL (Ha b0 Hb0)).
+    intros E. unfold cmap in Hf.
+    pose proof (existsb_false_in is_fffd _ (apply_upper deny b0) Hf (in_map _ _ _ Hb0)) as Hx. unfold is_fffd in Hx.
+    rewrite E, N.eqb_refl in Hx. discriminate.
+  - destruct (apd_inv A deny dec dbl false Hapd) as (_ & _ & Hg & _).
+    eapply Forall_impl; [|exact Hg]. intros c Hc0. exact (gc_okc deny DOT_MASK c Hc0).
+  - eapply Forall_impl; [|exact Hg]. intros c Hc0. exact (gc_okc deny DOT_MASK c Hc0).
+Qed.
+
+Lemma outs_okc DBL : forall ap ou, Forall2 (PairOK A cfg deny hy) DBL ap -> outs cfg uT DBL ap = inl ou ->
+  Forall (Forall (okc deny)) ou.
+Proof.
+  induction DBL as [|dbl DBL IH]; intros ap ou HP Ho.
+  - inversion HP; subst. cbn [outs] in Ho. inversion Ho. constructor.
+  - inversion HP as [|? e ? ap' H1 H2]; subst. cbn [outs] in Ho.
+    destruct (out_label cfg uT dbl e) as [o|s] eqn:E1; [|discriminate].
+    destruct (outs cfg uT DBL ap') as [os'|s] eqn:E2; [|discriminate]. inversion Ho. subst ou.
+    constructor; [exact (pair_out_okc dbl e o H1 E1)|exact (IH _ _ H2 E2)].
+Qed.
+
+(* every ASCII character of the Unicode form of an accepted name is outside the deny list *)
+Theorem unicode_form_okc d b a : bytes d -> to_ascii A cfg d deny hy DIgnore = Ok (b, a) ->
+  Forall (okc deny) (ui_text (to_unicode A cfg d deny hy)).
+Proof.
+  intros Hb H.
+  destruct (first_run A cfg deny hy HU HL HOK HUSV HNT HNI HNM HMP d b a Hb H)
+    as [(Ead & Had & HTd)|(pl & DBL & ap & bd & os & ou & bu & Ei & Hpl & HD & HPK & Hbidi & Hbok & Eo & Hos & Ha & Eu & Hou & HTu)].
+  - rewrite HTd. cbn [ui_text]. subst a.
+    pose proof (c10_ascii_under_notrunc A cfg HNT d deny hy DIgnore b d Hb HV H) as HC.
+    eapply Forall_impl; [|exact HC]. intros c (_ & _ & Hm) _. exact Hm.
+  - rewrite HTu. cbn [ui_text]. apply okc_join; [exact (clean_okc deny DOT (dot_clean deny HL))|].
+    apply Forall_app. split; [|exact (outs_okc DBL ap ou HPK Eu)].
+    eapply Forall_impl; [|exact Hpl]. intros l [Hbl Hp].
+    eapply Forall_impl; [|exact (passthrough_clean deny l HL Hbl Hp)]. intros c Hc. exact (clean_okc deny c Hc).
+Qed.
+End Form.
+
+Lemma url_denies_pct_bracket : deny_member DENY_URL 37 = true /\ deny_member DENY_URL 91 = true.
+Proof. vm_compute. split; reflexivity. Qed.
+
+(* (P2) for the URL deny list: no '%' byte in the UTF-8 form, no leading '[' *)
+Theorem p2_url A cfg : AdapterOK A -> AdapterUSV A -> NvNoTrunc A -> NvIdem A -> AsciiNoMark A -> MapPrefix A ->
+  forall d b a, bytes d -> to_ascii A cfg d DENY_URL HAllow DIgnore = Ok (b, a) ->
+  let t := ui_text (to_unicode A cfg d DENY_URL HAllow) in
+  ~ In 37 (utf8_encode t) /\ Model.Host.starts_with 91 t = false.
+Proof.
+  intros HOK HUSV HNT HNI HNM HMP d b a Hb H t.
+  pose proof (unicode_form_okc A cfg DENY_URL HAllow C09_InstIdna.valid_deny_url HOK HUSV HNT HNI HNM HMP d b a Hb H) as Hf.
+  fold t in Hf. rewrite Forall_forall in Hf. destruct url_denies_pct_bracket as [D37 D91]. split.
+  - intros Hin. apply utf8_encode_low in Hin; [|lia]. specialize (Hf 37 Hin). unfold okc in Hf. rewrite D37 in Hf.
+    assert (X : 37 < 128) by lia. specialize (Hf X). discriminate.
+  - destruct t as [|x r] eqn:Et; [reflexivity|]. unfold Model.Host.starts_with.
+    destruct (x =? 91) eqn:E; [|reflexivity]. apply N.eqb_eq in E. subst x.
+    specialize (Hf 91 (or_introl eq_refl)). unfold okc in Hf. rewrite D91 in Hf.
+    assert (X : 91 < 128) by lia. specialize (Hf X). discriminate.
 Qed.
